@@ -131,6 +131,8 @@ func TestC04(t *testing.T) {
 		if feats["wide-const"]+feats["shift"]+feats["int-div"]+feats["conversion"]+feats["typed-const"] > 0 {
 			r.Nontrivial(src)
 		}
-		r.Sample(func() any { return map[string]any{"xgo": xgo, "outcome": cls, "decls": src[strings.Index(src, "func fn()"):]} })
+		r.Sample(func() any {
+			return map[string]any{"xgo": xgo, "outcome": cls, "decls": src[strings.Index(src, "func fn()"):]}
+		})
 	})
 }
